@@ -13,17 +13,17 @@ From RV Require Import Base.Prelude Name.NameModel Wire.WireTypes Wire.WireModel
 
 Lemma udp_outcome_cost : forall r, fst (udp_outcome r) <= UDP_TIMEOUT_MS.
 Proof.
-  intros r. unfold udp_outcome, UDP_TIMEOUT_MS.
-  destruct (t_refuse r); cbn [fst]; [lia|].
+  intros r. unfold udp_outcome.
+  destruct (t_refuse r); cbn [fst]; [apply N.le_0_l|].
   destruct (t_bytes r); cbn [fst]; [|lia].
-  destruct (5000 <? t_delay_ms r) eqn:E; cbn [fst]; [lia|].
-  apply N.ltb_ge in E. lia.
+  destruct (UDP_TIMEOUT_MS <? t_delay_ms r) eqn:E; cbn [fst]; [lia|].
+  apply N.ltb_ge in E. exact E.
 Qed.
 
 Lemma tcp_outcome_cost : forall r, fst (tcp_outcome r) <= TCP_TIMEOUT_MS.
 Proof.
-  intros r. unfold tcp_outcome, TCP_TIMEOUT_MS.
-  destruct (5000 <? t_delay_ms r) eqn:E; cbn [fst]; [lia|].
+  intros r. unfold tcp_outcome.
+  destruct (TCP_TIMEOUT_MS <? t_delay_ms r) eqn:E; cbn [fst]; [lia|].
   apply N.ltb_ge in E.
   destruct (read_tcp_stream _ _) as [[b|]|]; cbn [fst]; lia.
 Qed.
@@ -113,13 +113,13 @@ Proof.
   destruct (udp_exchange o a q rd req s) as [[[om req1]|w] s1] eqn:Eu.
   - pose proof (udp_exchange_time _ _ _ _ _ _ _ _ Hs Eu) as Hu.
     destruct (gate _ om).
-    + inversion H; subst. eapply time_step_weaken; [|exact Hu]. unfold UDP_TIMEOUT_MS, TCP_TIMEOUT_MS. lia.
+    + inversion H; subst. eapply time_step_weaken; [|exact Hu]. lia.
     + assert (Hs1 : ts_elapsed s1 <= BUDGET_MS) by (unfold time_step in Hu; lia).
       destruct (tcp_exchange o a q rd req1 s1) as [[om2|w] s2] eqn:Et;
         pose proof (tcp_exchange_time _ _ _ _ _ _ _ _ Hs1 Et) as Ht;
         inversion H; subst; eapply time_step_trans; eassumption.
   - pose proof (udp_exchange_time _ _ _ _ _ _ _ _ Hs Eu) as Hu.
-    inversion H; subst. eapply time_step_weaken; [|exact Hu]. unfold UDP_TIMEOUT_MS, TCP_TIMEOUT_MS. lia.
+    inversion H; subst. eapply time_step_weaken; [|exact Hu]. lia.
 Qed.
 
 (* ---------------------------------------------------------------------- *)
